@@ -119,6 +119,14 @@ def main() -> int:
         obligations.append((name, fn, post, replay_fn, nvars))
 
     # 1. cast: raises TypeError iff no shared base type; otherwise exactly the shared base types
+    def post_bool_late(rv):
+        def post(out):
+            kind, v = out
+            if kind != 'ret' or not isinstance(v, bool):
+                return z3.BoolVal(False)
+            return share(a, rv) if v else z3.Not(share(a, rv))
+        return post
+
     def post_cast(out):
         kind, v = out
         if kind == 'raise':
@@ -126,6 +134,16 @@ def main() -> int:
         return z3.And(share(a, b), inter_is(t_of(v), a, b))
 
     ob('cast-is-intersection', lambda: cast(A, B), post_cast, 'cast')
+
+    # identity-based shortcuts (`self is t`, `t is DataType.ANY`) are invisible to two distinct proxies: one operand real / both the same object
+    for nm_ in ('ANY', 'NONE', 'BOOL', 'PRIMITIVE'):
+        R = members[nm_]
+        rv = z3.BitVecVal(R.value, W)
+        ob(f'cast-real-right-{nm_}', (lambda R=R: cast(A, R)),
+           (lambda rv: lambda out: (z3.And(share(a, rv), inter_is(t_of(out[1]), a, rv)) if out[0] == 'ret' else (z3.Not(share(a, rv)) if out[1] == 'TypeError' else z3.BoolVal(False))))(rv), 'cast')
+        ob(f'cast-real-left-{nm_}', (lambda R=R: cast(R, A)),
+           (lambda rv: lambda out: (z3.And(share(a, rv), inter_is(t_of(out[1]), a, rv)) if out[0] == 'ret' else (z3.Not(share(a, rv)) if out[1] == 'TypeError' else z3.BoolVal(False))))(rv), 'cast')
+        ob(f'can_be-real-{nm_}', (lambda R=R: can_be(A, R)), post_bool_late(rv), 'can_be')
 
     # 2. idempotent
     def post_same_as(ref_t):
@@ -349,6 +367,38 @@ def main() -> int:
             type.__delattr__(DataType, '__contains__')
     for g in proxy_gaps:
         ck.undecided(f'{g}: the bit-vector proxies cannot execute this code shape (their outcome differs from the real enum on the same values)')
+    # the same laws on the REAL members for all 128 x 128 pairs (complete; identity comparisons between real members included)
+    bad_pair = None
+    for x in range(128):
+        dx = DataType(x)
+        for y in range(128):
+            dy = DataType(y)
+            try:
+                got = ('ret', DataType.cast(dx, dy).value)
+            except TypeError:
+                got = ('raise', 'TypeError')
+            except Exception as e:
+                got = ('raise', type(e).__name__)
+            want = ('ret', x & y) if x & y else ('raise', 'TypeError')
+            if got != want and bad_pair is None:
+                bad_pair = f'cast({dx!r}, {dy!r}) -> {got}, expected {want}'
+            try:
+                cb = DataType.can_be(dx, dy)
+            except Exception as e:
+                cb = type(e).__name__
+            if cb is not bool(x & y) and bad_pair is None:
+                bad_pair = f'can_be({dx!r}, {dy!r}) -> {cb!r}, expected {bool(x & y)}'
+            try:
+                un = DataType.union([dx, dy]).value
+            except Exception as e:
+                un = type(e).__name__
+            if un != (x | y) and bad_pair is None:
+                bad_pair = f'union([{dx!r}, {dy!r}]) -> {un!r}, expected {x | y}'
+    ck.obligation(bad_pair is None, 1)
+    if bad_pair:
+        ck.counterexample('law:real-members', bad_pair, {'kind': 'law', 'law': 'real-members'})
+    ck.engine('SF', real_member_pairs=128 * 128)
+
     # long iterables (concrete: the length, not the values, is what matters; outside the symbolic bound of 8 operands)
     import itertools as _it
     base = [members[n] for n in base_names]
